@@ -326,6 +326,8 @@ static double now(void)
   return (double)t.tv_sec + 1e-9 * (double)t.tv_nsec;
 }
 
+static int ntimeouts;
+
 static void one_run(job_t const * j, long k, long from)
 {
   int fd[2];
@@ -351,7 +353,7 @@ static void one_run(job_t const * j, long k, long from)
     _exit(0);                     /* no atexit handlers: the FFT cache tables stay where they are */
   }
   close(fd[1]);
-  deadline = now() + j->timeout;
+  deadline = now() + (ntimeouts >= 3 ? 3 : j->timeout);   /* a job that hangs again and again is not waited for at length */
   for (;;) {
     struct pollfd pfd;
     double left = deadline - now();
@@ -373,7 +375,7 @@ static void one_run(job_t const * j, long k, long from)
   printf("@RUN k=%ld from=%ld\n", k, from);
   fwrite(buf, 1, len, stdout);
   if (len && buf[len - 1] != '\n') putchar('\n');
-  if (timed_out) printf("@END status=timeout\n");
+  if (timed_out) ++ntimeouts, printf("@END status=timeout\n");
   else if (WIFSIGNALED(status)) printf("@END status=sig:%d\n", WTERMSIG(status));
   else printf("@END status=exit:%d\n", WEXITSTATUS(status));
   fflush(stdout);
